@@ -5,7 +5,7 @@ import logging
 import os
 from dataclasses import dataclass, field
 
-from . import xltypes, reader, parser, tokenizer
+from . import xltypes, reader, parser, tokenizer, utils
 
 
 @dataclass
@@ -230,7 +230,10 @@ class ModelCompiler:
         """Add defined ranges to model."""
         for name in self.defined_names:
             cell_address = self.defined_names[name]
-            cell_address = cell_address.replace('$', '')
+            # (The `$` of a sheet name is part of the name.)
+            cell_address = ','.join(
+                utils.strip_absolute_markers(area)
+                for area in cell_address.split(','))
 
             # a cell has an address like; Sheet1!A1
             if ':' not in cell_address:
